@@ -613,7 +613,14 @@ def _oracle_normal(ctx, case, man, in_mols, ends, paths, out, err, rec):
         ctx.oracle_fail(f"{key}:raises-{type(err).__name__}", case, {"error": repr(err)})
         return
     first_in = open(paths["sys"]).readline()
-    first_out, natoms, lines, box = _read_gro(out)
+    try:
+        first_out, natoms, lines, box = _read_gro(out)
+    except Exception as e:   # noqa: BLE001
+        # the run "succeeded" but what it wrote cannot be read back as a coordinate file at all
+        ctx.oracle_ok()
+        ctx.oracle_fail(f"{key}:written-file-unreadable-{type(e).__name__}", case,
+                        {"error": repr(e)[:300], "head": open(out, "rb").read()[:400].decode("latin-1")})
+        return
     expect = mgrgen.expected_layout(desc, set(ends))
     fails = []
     # title and box
